@@ -12,9 +12,12 @@ Tie to the code: real suds clients are built over in-memory WSDL/XSD documents w
 generated plugin lists (InitPlugin / DocumentPlugin / MessagePlugin subclasses, every
 subset of hooks overridden, permutations); every hook records what it is handed and
 appends an order-revealing marker to it; a recording transport captures the request
-bytes and answers with a canned reply class.  The hook log, the bytes at the transport
-and the value/exception the caller gets are compared, in Coq, with the model
-(c16_agrees) and with the specification (c16_spec_ok).
+bytes and answers with a canned reply class.  A raising hook raises an exception of a
+generated CLASS (XCLS: Exception, a user subclass, ValueError, KeyError, AttributeError,
+TypeError, OSError, suds.WebFault, suds.transport.TransportError and a subclass,
+SAXParseException, a BaseException subclass); the caller must get that very object.  The
+hook log, the bytes at the transport and the value/exception the caller gets are
+compared, in Coq, with the model (c16_agrees) and with the specification (c16_spec_ok).
 """
 import io
 import itertools
@@ -28,8 +31,10 @@ THEOREMS = [
     "dispatch_closed_form", "stage_once_in_order", "participant_is_of_matching_kind",
     "hook_log", "later_stages_see_edits", "stage_entry_view", "dataflow",
     "no_reply_hooks_without_reply", "no_unmarshalled_for_fault",
-    "hook_exception_propagates", "raising_hook_reaches_caller", "no_spurious_hook_exception",
-    "document_hooks", "model_meets_spec", "construct_meets_spec",
+    "hook_exception_propagates", "exception_delivery", "exception_class_irrelevant",
+    "raising_hook_reaches_caller", "no_spurious_hook_exception",
+    "document_hooks", "document_hook_exception_propagates_partial", "construct_class_irrelevant",
+    "model_meets_spec", "construct_meets_spec",
 ]
 
 PRE = "From SV Require Import Lib.Base C16.Model."
@@ -44,6 +49,19 @@ KINDS = ("init", "doc", "msg")
 
 URLS = {"suds://main.wsdl": 1, "suds://a.xsd": 2, "suds://b.xsd": 3, "suds://c.wsdl": 4}
 URL_OF = dict((v, k) for k, v in URLS.items())
+# the documents the schema loader opens (xsd:import / xsd:include -> sxbasic.__download)
+XSD_URLS = (2, 3)
+
+# the classes of the exceptions raising hooks raise (coq/C16/Model.v: xcls)
+XCLS = ("XPlain", "XSub", "XValue", "XLookup", "XAttr", "XType", "XOS",
+        "XWebFault", "XTransport", "XTransportSub", "XSax", "XBase")
+XCLS_TEXT = {"XPlain": "Exception", "XSub": "a subclass of Exception", "XValue": "ValueError",
+             "XLookup": "KeyError", "XAttr": "AttributeError", "XType": "TypeError", "XOS": "OSError",
+             "XWebFault": "suds.WebFault", "XTransport": "suds.transport.TransportError",
+             "XTransportSub": "a subclass of suds.transport.TransportError",
+             "XSax": "xml.sax.SAXParseException", "XBase": "a subclass of BaseException"}
+# the httpcode a hook's TransportError carries
+HOOK_CODES = (500, 200, 202, 404)
 
 TOKEN = re.compile(r"([a-z])(\d+);")
 
@@ -136,6 +154,69 @@ class TransportCrash(Exception):
     pass
 
 
+class HookAbort(BaseException):
+    """What a hook raising XBase raises: no Exception, so `except Exception` lets it pass."""
+
+
+_lazy = {}
+
+
+def hook_transport_error_class():
+    if "T" not in _lazy:
+        import suds.transport
+
+        class HookTransportError(suds.transport.TransportError):
+            pass
+        _lazy["T"] = HookTransportError
+    return _lazy["T"]
+
+
+def xcls_of(raises):
+    """the class name a slot's `raises` entry stands for (True: slots recorded before the
+    class became a dimension)"""
+    if not raises:
+        return None
+    return "XSub" if raises is True else raises
+
+
+def make_exc(cls, site, idx):
+    """A fresh exception object of the class, as a hook of plugin idx at `site` raises it."""
+    import suds
+    import suds.sudsobject
+    import suds.transport
+    import xml.sax
+    import xml.sax.xmlreader
+    tag = "c16 hook %s %d" % (site, idx)
+    code = HOOK_CODES[(idx + SITES.index(site)) % len(HOOK_CODES)]
+    if cls == "XPlain":
+        return Exception(tag)
+    if cls == "XSub":
+        return HookError(site, idx)
+    if cls == "XValue":
+        return ValueError(tag)
+    if cls == "XLookup":
+        return KeyError(tag)
+    if cls == "XAttr":
+        return AttributeError(tag)
+    if cls == "XType":
+        return TypeError(tag)
+    if cls == "XOS":
+        return OSError(5, tag)
+    if cls == "XWebFault":
+        fault = suds.sudsobject.Object()
+        fault.faultstring = tag
+        return suds.WebFault(fault, None)
+    if cls == "XTransport":
+        return suds.transport.TransportError(tag, code)
+    if cls == "XTransportSub":
+        return hook_transport_error_class()(tag, code, io.BytesIO(BODIES["BNormal"]) if idx % 2 else None)
+    if cls == "XSax":
+        return xml.sax.SAXParseException(tag, None, xml.sax.xmlreader.Locator())
+    if cls == "XBase":
+        return HookAbort(tag)
+    raise AssertionError(cls)
+
+
 # ---------------------------------------------------------------------------
 # plugins that record and edit
 # ---------------------------------------------------------------------------
@@ -151,6 +232,19 @@ def tokens(x):
 class Recorder(object):
     def __init__(self):
         self.log = []
+        self.raised = []          # (exception object, site, plugin, class) of every raise
+
+    def raise_from(self, cls, site, idx):
+        e = make_exc(cls, site, idx)
+        self.raised.append((e, site, idx, cls))
+        raise e
+
+    def find(self, e):
+        """(site, plugin, class) when e is the very object a hook raised"""
+        for x, site, idx, cls in self.raised:
+            if x is e:
+                return (site, idx, cls)
+        return None
 
     def add(self, site, idx, url, view, ctx):
         try:
@@ -180,7 +274,7 @@ def make_hook(name, idx, edits, raises, rec):
 
     def done(site):
         if raises:
-            raise HookError(site, idx)
+            rec.raise_from(xcls_of(raises), site, idx)
         return edits
 
     def initialized(self, ctx):
@@ -245,7 +339,8 @@ def make_doctor(idx, rec):
 
 def make_plugin(idx, spec, rec):
     """spec = (kinds, slots): kinds a tuple of 3 booleans (init, doc, msg), slots a tuple of
-    7 entries ordered as NAMES, each 'I' | 'N' | 'F' | ('fn', edits, raises)."""
+    7 entries ordered as NAMES, each 'I' | 'N' | 'F' | ('fn', edits, raises) with raises
+    False or the class (XCLS) of the exception the hook raises."""
     import suds.plugin
     if len(spec) == 3 and spec[2] == "doctor":
         return make_doctor(idx, rec)
@@ -417,32 +512,38 @@ def value_datum(v):
     return tokens(s)
 
 
-def canon_result(fn, body, status):
-    """Run fn() and canonicalise what the caller gets -> (constructor, payload)"""
+def canon_result(fn, body, status, rec):
+    """Run fn() and canonicalise what the caller gets -> (constructor, payload).  An
+    exception counts as a hook's only when it is the very object the hook raised."""
     import suds
     import suds.client
     import xml.sax
     desc = "status %d" % status
     try:
         r = fn()
-    except HookError as e:
-        return ("RHookExc", (e.site, e.idx)), None
-    except TransportCrash:
-        return ("RTransportExc",), None
-    except suds.WebFault as e:
-        try:
-            d = value_datum(e.fault.faultstring)
-        except Exception:
-            d = "other"
-        return (("RFault", d) if isinstance(d, list) else ("ROther",)), None
-    except xml.sax.SAXParseException:
-        return ("RParseExc",), None
-    except Exception as e:
+    except BaseException as e:
+        if not isinstance(e, (Exception, HookAbort)):
+            raise
+        hit = rec.find(e)
+        if hit is not None:
+            return ("RHookExc", hit), None
+        if isinstance(e, TransportCrash):
+            return ("RTransportExc",), None
+        if isinstance(e, suds.WebFault):
+            try:
+                d = value_datum(e.fault.faultstring)
+            except Exception:
+                d = "other"
+            return (("RFault", d) if isinstance(d, list) else ("ROther",)), None
+        if isinstance(e, xml.sax.SAXParseException):
+            return ("RParseExc",), None
         a = e.args
         if type(e) is Exception and len(a) == 1 and isinstance(a[0], tuple) and len(a[0]) == 2 \
                 and a[0][0] == status and a[0][1] == desc:
             return ("RStatusExc", status), None
         return ("ROther", repr(e)[:200]), None
+    if isinstance(r, tuple) and len(r) == 2 and r[0] == 500 and rec.find(r[1]) is not None:
+        return ("RHookRet", rec.find(r[1])), None
     if isinstance(r, suds.client.RequestContext):
         return ("RRequest", request_markers(r.envelope)), r
     if r is None:
@@ -494,10 +595,19 @@ def run_case(case):
                                     nosend=(inv["via"] == "NoSend"), retxml=inv["retxml"],
                                     faults=inv["faults"])
         cres = ("COk",)
-    except HookError as e:
-        cres = ("CHookExc", e.site, e.idx)
-    except Exception as e:
-        cres = ("COther", repr(e)[:200])
+    except BaseException as e:
+        if not isinstance(e, (Exception, HookAbort)):
+            raise
+        hit = rec.find(e)
+        inner = rec.find(e.__context__) if e.__context__ is not None else None
+        if hit is not None:
+            cres = ("CHookExc",) + hit
+        elif type(e) is Exception and inner is not None and re.fullmatch(
+                r"(import schema \(.*\) at \(.*\)|include schema at \(.*\)), failed", str(e)):
+            # sxbasic.Import/Include.__download answering a TransportError
+            cres = ("CWrapped",) + inner
+        else:
+            cres = ("COther", repr(e)[:200])
     # DocumentReader.open calls and fetches, from the cache's and the store's own records
     ids = dict((mangle(u), n) for u, n in URLS.items())
     opens = []
@@ -513,16 +623,16 @@ def run_case(case):
     if client is None or case["inv"] is None:
         return obs
     del rec.log[:]
-    res, rc = canon_result(lambda: client.service.f("x"), body, inv["status"])
+    res, rc = canon_result(lambda: client.service.f("x"), body, inv["status"], rec)
     res2 = ("RNotRun",)
     if rc is not None and inv["via"] == "NoSend" and inv["process"]:
         st = inv["status"]
         if st == 200 and not inv["explicit200"]:
             st = None
         res2, _ = canon_result(lambda: rc.process_reply(body, st, "status %d" % inv["status"]),
-                               body, inv["status"])
+                               body, inv["status"], rec)
     obs["iobs"] = {"log": list(rec.log), "sent": [request_markers(m) for m in transport.sent],
-                   "res": res, "res2": res2}
+                   "res": res, "res2": res2, "raises": len(rec.raised)}
     return obs
 
 
@@ -554,7 +664,8 @@ def c_slot(sl):
         return "NonCallable"
     if sl == "F":
         return "FalsyCallable"
-    return "(Fn %s %s)" % (common.cbool(sl[1]), common.cbool(sl[2]))
+    x = xcls_of(sl[2])
+    return "(Fn %s %s)" % (common.cbool(sl[1]), "None" if x is None else "(Some %s)" % x)
 
 
 def c_plugin(sp):
@@ -570,8 +681,8 @@ def c_result(r):
         return "(%s (dN %s))" % (k, c_datum(r[1]))
     if k in ("RStatusExc", "RStatusT"):
         return "(%s %d)" % (k, r[1])
-    if k == "RHookExc":
-        return "(RHookExcN %s %d)" % (r[1][0], r[1][1])
+    if k in ("RHookExc", "RHookRet"):
+        return "(%sN %s %d %s)" % (k, r[1][0], r[1][1], r[1][2])
     return k
 
 
@@ -584,7 +695,7 @@ def c_inv(inv):
 def c_case(case, obs):
     cres = obs["cres"]
     cr = "COk" if cres[0] == "COk" else "COther" if cres[0] == "COther" else \
-        "(CHookExcN %s %d)" % (cres[1], cres[2])
+        "(%sN %s %d %s)" % (cres[0], cres[1], cres[2], cres[3])
     if obs["iobs"] is None:
         iv = "None"
     else:
@@ -592,9 +703,9 @@ def c_case(case, obs):
         iv = "(Some (%s, IObs %s [%s] %s %s))" % (
             c_inv(case["inv"]), c_log(o["log"]), ";".join("mN " + c_markers(m) for m in o["sent"]),
             c_result(o["res"]), c_result(o["res2"]))
-    return "(CCase [%s] %s [%s] [%s] %s %s %s)%%N" % (
+    return "(CCase [%s] %s [%s] [%s] [%s] %s %s %s)%%N" % (
         "; ".join(c_plugin(p) for p in case["plugins"]), common.cbool(case["caching"]),
-        ";".join(str(u) for u in case["pre"]),
+        ";".join(str(u) for u in case["pre"]), ";".join(str(u) for u in XSD_URLS),
         ";".join("(%d,%s)" % (u, common.cbool(f)) for u, f in obs["opens"]),
         c_log(obs["clog"]), cr, iv)
 
@@ -655,7 +766,7 @@ def random_plugin(rng, wild):
             elif q < 0.90:
                 over[n] = "N"
             else:
-                over[n] = ("fn", rng.random() < 0.5, True)
+                over[n] = ("fn", rng.random() < 0.5, rng.choice(XCLS))
     return (kinds_of(*ks), slots_for(over))
 
 
@@ -734,20 +845,52 @@ def generate(ck):
     for inv in invs:
         cases.append(mkcase(sweep, world=1, inv=inv, group="settings-sweep"))
 
-    # (3) one hook raises: every (plugin, hook) position of three plugins of all kinds
+    # (3) one hook raises: every (plugin, hook) position of three plugins of all kinds x every
+    #     exception class x every delivery path (the service call sending for real; nosend
+    #     followed by RequestContext.process_reply)
     trio = [full_plugin("init", "doc", "msg")] * 3
     raise_invs = [i for i in invs if (i["status"], i["body"]) in ((200, "BNormal"), (500, "BFault"), (200, "BEmpty"))
                   and not i["retxml"]]
+    by_via = dict((via, [i for i in raise_invs if i["via"] == via]) for via in ("Direct", "NoSend"))
+
+    def with_raise(ps, pi, name, cls, edits=True):
+        ps = list(ps)
+        kinds, slots = ps[pi]
+        sl = list(slots)
+        sl[NAMES.index(name)] = ("fn", edits, cls)
+        ps[pi] = (kinds, tuple(sl))
+        return ps
     for pi in range(3):
         for name in NAMES:
-            ps = list(trio)
-            kinds, slots = ps[pi]
-            sl = list(slots)
-            sl[NAMES.index(name)] = ("fn", True, True)
-            ps[pi] = (kinds, tuple(sl))
-            chosen = raise_invs if thorough else rng.sample(raise_invs, 3)
+            for cls in XCLS:
+                ps = with_raise(trio, pi, name, cls)
+                for via in ("Direct", "NoSend"):
+                    chosen = by_via[via] if thorough else [rng.choice(by_via[via])]
+                    for inv in chosen:
+                        cases.append(mkcase(ps, world=2, caching=True, pre=(2,), inv=inv, group="one-hook-raises"))
+
+    # (3a) a reply-side hook raises, every class x every way a real send can be answered
+    #      (a Reply, a TransportError of the transport with each status and body)
+    direct = [i for i in invs if i["via"] == "Direct" and not i["crash"]]
+    duo = [full_plugin("msg"), full_plugin("msg"), full_plugin("msg")]
+    for name in ("received", "parsed", "unmarshalled"):
+        for cls in XCLS:
+            ps = with_raise(duo, 1, name, cls, edits=False)
+            chosen = direct if thorough else rng.sample(direct, 4)
             for inv in chosen:
-                cases.append(mkcase(ps, world=2, caching=True, pre=(2,), inv=inv, group="one-hook-raises"))
+                cases.append(mkcase(ps, inv=inv, group="reply-hook-raises"))
+
+    # (3c) a document hook raises while the schema loader / the WSDL loader opens an imported
+    #      or included document (the WSDL itself comes from the cache), every class
+    for cls in XCLS:
+        for w, pre in ((1, (1,)), (2, (1,)), (2, (1, 2)), (3, (1,)), (3, (1, 2))):
+            ps = with_raise([full_plugin("doc"), full_plugin("doc")], rng.choice((0, 1)), "loaded", cls)
+            cases.append(mkcase(ps, world=w, caching=True, pre=pre, inv=rng.choice(invs),
+                                group="import-hook-raises"))
+        for name in ("parsed", "initialized"):
+            ps = with_raise([full_plugin("doc", "init"), full_plugin("doc", "init")], rng.choice((0, 1)), name, cls)
+            cases.append(mkcase(ps, world=rng.choice((1, 2, 3)), caching=rng.random() < 0.5,
+                                inv=rng.choice(invs), group="import-hook-raises"))
 
     # (3b) suds' own ImportDoctor among the plugins: its parsed hook makes the loader open
     #      a.xsd, whose hooks then fire like any other document's
@@ -812,7 +955,7 @@ DIAG = {
     6: ("C16:transport-gets-other-bytes", "the bytes handed to the transport are not the bytes the sending hooks "
         "returned for the tree the marshalled hooks edited"),
     7: ("C16:caller-gets-other-result", "the caller does not get the value the unmarshalled hooks set / the fault "
-        "decoded from the tree the parsed hooks edited / the exception a hook raised"),
+        "decoded from the tree the parsed hooks edited / the very exception object a hook raised"),
 }
 
 
@@ -830,7 +973,8 @@ def describe_plugin(sp):
         elif s == "F":
             ov.append(n + "=<callable, falsy>")
         else:
-            ov.append(n + ("" if s[1] else "(looks only)") + ("(raises)" if s[2] else ""))
+            ov.append(n + ("" if s[1] else "(looks only)") +
+                      ("(raises %s)" % XCLS_TEXT.get(xcls_of(s[2]), s[2]) if s[2] else ""))
     return "%s plugin overriding {%s}" % ("+".join(ks), ", ".join(ov))
 
 
@@ -847,7 +991,10 @@ def payload_of(case, obs):
                    "status/body as in inv (TransportError for a status other than 200); for via=NoSend with "
                    "process the caller hands the same reply to RequestContext.process_reply.  Hook k appends "
                    "'<letter>k;' to what it is handed (l loaded, d document parsed, m marshalled, s sending, "
-                   "r received, p parsed, u unmarshalled) and logs the markers it found."}
+                   "r received, p parsed, u unmarshalled) and logs the markers it found.  A raising hook raises "
+                   "a fresh exception of its class (harness.c16.make_exc); RHookExc/CHookExc (site, plugin, "
+                   "class) = the caller got that very object raised, RHookRet = returned as (500, object), "
+                   "CWrapped = a new Exception('import/include schema ... failed') chained to it."}
 
 
 def case_from_payload(p):
@@ -891,6 +1038,13 @@ def run(ck):
         "which documents the loader opens (imports, includes) is taken from the cache's own record of "
         "DocumentReader.open calls; C16 checks the hooks per open/fetch, not the loader",
         "the simulation entry point (__inject with a reply) skips marshalled/sending by design and is not driven",
+        "exceptions: the class of a hook's exception is a generated dimension (12 classes, those suds catches or "
+        "raises itself among them); the caller must get the very object.  Two class-dependent behaviours of "
+        "suds are in the model: the service call hands a WebFault back as (500, exception) when faults is off "
+        "(accepted by the specification: suds' convention for faults=False), and the schema loader answers a "
+        "TransportError raised while it downloads an xsd:import/xsd:include - by a document hook too - with a new "
+        "Exception('import schema ... failed') chained to it (accepted there only; "
+        "document_hook_exception_propagates_partial / document_hook_exception_refuted)",
         "a callable hook object whose truth value is False is skipped by `if method and callable(method)`; the "
         "model keeps this (FalsyCallable) and the specification treats such an attribute as not overriding the "
         "hook; the generators do not use such hooks (coverage.falsy_callable_hook_is_skipped records a probe)",
@@ -918,8 +1072,13 @@ def run(ck):
                      + ("+crash" if inv["crash"] else ""))
             ck.count("result:" + obs["iobs"]["res"][0] + ("/" + obs["iobs"]["res2"][0]
                                                          if obs["iobs"]["res2"][0] != "RNotRun" else ""))
+            for r in (obs["iobs"]["res"], obs["iobs"]["res2"]):
+                if r[0] in ("RHookExc", "RHookRet"):
+                    ck.count("hook-exception:%s@%s:%s" % (r[1][2], r[1][0], inv["via"].lower()))
         else:
             ck.count("construction:" + obs["cres"][0])
+        if obs["cres"][0] in ("CHookExc", "CWrapped"):
+            ck.count("hook-exception:%s@%s:%s" % (obs["cres"][3], obs["cres"][1], obs["cres"][0]))
         ck.count("hook-calls", ncalls)
         if case["group"] == "import-doctor" and case["world"] == 4:
             ck.count("doctor-edit-makes-loader-open-a.xsd:%s" % any(u == 2 for u, _ in obs["opens"]))
@@ -960,7 +1119,10 @@ def run(ck):
                "attributes, look-only and raising hooks): every subset of hooks for single plugins x reply "
                "classes; a sweep of all %d settings (status 200/202/204/500/404/401 x body normal/fault/empty/"
                "garbage x retxml x faults x direct/nosend+process_reply, plus nosend alone and a crashing "
-               "transport); every (plugin, hook) raising position of three all-kind plugins; every permutation "
+               "transport); every (plugin, hook) raising position of three all-kind plugins x 12 exception "
+               "classes x {real send, nosend+process_reply}; a reply-side hook raising each class x the ways a "
+               "real send is answered; a document hook raising each class inside an imported/included "
+               "document; every permutation "
                "of random multisets; random lists; x document sets (WSDL alone, +imported schema, +included "
                "schema, +imported WSDL, schema imported only by suds' ImportDoctor used as a plugin) x no cache / cache / partly pre-filled cache.  distinct = distinct "
                "(plugin list, documents, cache state, settings); non-trivial = at least one hook ran"
